@@ -1,3 +1,4 @@
+import Bd.Linear
 import Fu.History
 import Fu.History2
 import Fu.Sampled
@@ -90,6 +91,40 @@ theorem translate_realises :
     (h : translate s 0 (.eq, 0) [] = .ok us) (hlen : consumed s ≤ old.length),
     us.foldl (splice v) old = expected v s old :=
   @Bd.translate_realises
+end
+
+section
+open Bd Fu
+
+/-- linear history of a whole repository (files added, deleted, modified by arbitrary edit scripts — repeated lines
+included — with declared line counts consistent, C11): the tracked state refines the plain map file ↦ array of per-line
+values and the reports add up, per value, to the number of lines carrying it -/
+theorem history_inv :
+    ∀ (cs : List Commit) (s s' : BSt) (w : World), Inv s w → historyOK w cs →
+    runHistory s cs = .ok s' → Inv s' (specHistory w cs) :=
+  @Bd.history_inv
+
+/-- the initial state satisfies the invariant -/
+theorem inv_init : ∀ (pn : Nat), Inv ⟨pn, 0, [], []⟩ [] := @Bd.inv_init
+
+/-- no negative count, for any value, at any point of such a history -/
+theorem hist_nonneg :
+    ∀ (s : BSt) (w : World) (h : Inv s w) (v : Nat), 0 ≤ emSum (evTriples s.evs) v :=
+  @Bd.hist_nonneg
+
+/-- the total of all reports is the number of tracked lines (last row sum = text lines at HEAD) -/
+theorem total_lines :
+    ∀ (s : BSt) (w : World) (h : Inv s w), evTotal (evTriples s.evs) = wLines w :=
+  @Bd.total_lines
+
+/-- sample rows: with non-decreasing commit values the reports with current value ≤ T add up, per birth value, to the
+lines of the repository as it stands after the last commit with value ≤ T -/
+theorem sampled_rows :
+    ∀ (cs : List Commit) (s s' : BSt) (w : World), Inv s w → historyOK w cs →
+    cs.Pairwise (fun a b => a.time ≤ b.time) → runHistory s cs = .ok s' →
+    ∀ (T v : Nat), (∀ e ∈ evTriples s.evs, e.1 ≤ T) → (∀ c ∈ cs, ∀ e ∈ evTriples s.evs, e.1 ≤ c.time) →
+      emSumUpTo T (evTriples s'.evs) v = wCount (specHistory w (cs.takeWhile fun c => c.time ≤ T)) v :=
+  @Bd.sampled_rows
 end
 
 end Props.C01
